@@ -369,6 +369,38 @@ def environ_getter_is_fresh(c: Check, rule: str):
     v = c.fo.fold_path('exactly_lib.definitions.os_proc_env:ENV_VARS_GETTER__DEFAULT')
     c.expect(isinstance(v, Ref) and v.d == g, rule, 'ENV_VARS_GETTER__DEFAULT',
              'the default environment getter is %r' % (v,), 'src/exactly_lib/definitions/os_proc_env.py')
+    # every construction of the predefined properties is given a getter that returns a fresh mapping per call
+    pp = ix.cls('exactly_lib.execution.configuration:PredefinedProperties')
+    sites = util.call_sites_of(ix, pp)
+    for s in sites:
+        b = util.ctor_call_args(ix, pp, s.node) or {}
+        a = b.get('default_environ_getter')
+        if a is None:
+            continue   # the default of the parameter
+        m = ix.module(s.where.split(':')[0])
+        f = ix.try_lookup(s.where)
+        gv = c.fo.fold(m, f if isinstance(f, FuncDef) else None, a)
+        fresh = isinstance(gv, Ref) and isinstance(gv.d, FuncDef) and _returns_fresh_mapping(ix, gv.d)
+        c.expect(fresh, rule, 'PredefinedProperties/default_environ_getter@' + s.where,
+                 'the environment getter configured here (%s) does not return a fresh dict on every call: the act set, the '
+                 'non-act set and later cases would share one mapping' % unparse(a), s.loc)
+    c.floor(rule, 'constructions of PredefinedProperties', len(sites), 1)
+
+
+def _returns_fresh_mapping(ix: Index, fd: FuncDef) -> bool:
+    from ..fold import single_return_expr
+    if fd.decorators:
+        return False
+    r = single_return_expr(fd)
+    if isinstance(r, (ast.DictComp, ast.Dict)):
+        return True
+    if isinstance(r, ast.Call):
+        d = ix.callee(fd.module, fd, r)
+        if isinstance(d, External) and d.dotted == 'builtins.dict':
+            return True
+        if isinstance(r.func, ast.Attribute) and r.func.attr == 'copy' and not r.args:
+            return dotted_name(r.func.value) != 'os.environ'   # os.environ.copy() is a dict: fine too
+    return False
 
 
 # ---------------------------------------------------------------- e
